@@ -43,40 +43,24 @@ pub(crate) static TS_MICROS: SchemaNode<'static> = SchemaNode::TimestampMicros;
 pub(crate) static DURATION: SchemaNode<'static> = SchemaNode::Duration;
 pub(crate) static BIG_DECIMAL: SchemaNode<'static> = SchemaNode::BigDecimal;
 
-pub(crate) static ARRAY_LONG: SchemaNode<'static> = SchemaNode::Array(nref(&LONG));
-pub(crate) static ARRAY_NULL: SchemaNode<'static> = SchemaNode::Array(nref(&NULL));
-pub(crate) static ARRAY_BYTES: SchemaNode<'static> = SchemaNode::Array(nref(&BYTES));
-pub(crate) static ARRAY_ARRAY_LONG: SchemaNode<'static> = SchemaNode::Array(nref(&ARRAY_LONG));
-pub(crate) static MAP_LONG: SchemaNode<'static> = SchemaNode::Map(nref(&LONG));
-pub(crate) static MAP_BYTES: SchemaNode<'static> = SchemaNode::Map(nref(&BYTES));
-/// array whose items are itself: cycle through unnamed nodes, for depth-limit harnesses
-pub(crate) static ARRAY_SELF: SchemaNode<'static> = SchemaNode::Array(nref(&ARRAY_SELF));
-
 pub(crate) const fn fixed(n: usize) -> Fixed {
 	Fixed { size: n, name: name("f", None) }
 }
-pub(crate) static FIXED0: SchemaNode<'static> = SchemaNode::Fixed(fixed(0));
-pub(crate) static FIXED1: SchemaNode<'static> = SchemaNode::Fixed(fixed(1));
-pub(crate) static FIXED2: SchemaNode<'static> = SchemaNode::Fixed(fixed(2));
-pub(crate) static FIXED3: SchemaNode<'static> = SchemaNode::Fixed(fixed(3));
-pub(crate) static FIXED4: SchemaNode<'static> = SchemaNode::Fixed(fixed(4));
-
+pub(crate) const fn fixed_node(n: usize) -> SchemaNode<'static> {
+	SchemaNode::Fixed(fixed(n))
+}
 pub(crate) const fn dec_bytes(scale: u32) -> SchemaNode<'static> {
 	SchemaNode::Decimal(Decimal { _precision: 28, scale, repr: DecimalRepr::Bytes })
 }
 pub(crate) const fn dec_fixed(n: usize, scale: u32) -> SchemaNode<'static> {
 	SchemaNode::Decimal(Decimal { _precision: 28, scale, repr: DecimalRepr::Fixed(fixed(n)) })
 }
-pub(crate) static DEC_BYTES_S0: SchemaNode<'static> = dec_bytes(0);
-pub(crate) static DEC_BYTES_S1: SchemaNode<'static> = dec_bytes(1);
-pub(crate) static DEC_BYTES_S2: SchemaNode<'static> = dec_bytes(2);
-pub(crate) static DEC_FIXED0_S0: SchemaNode<'static> = dec_fixed(0, 0);
-pub(crate) static DEC_FIXED1_S0: SchemaNode<'static> = dec_fixed(1, 0);
-pub(crate) static DEC_FIXED2_S0: SchemaNode<'static> = dec_fixed(2, 0);
-pub(crate) static DEC_FIXED8_S0: SchemaNode<'static> = dec_fixed(8, 0);
-pub(crate) static DEC_FIXED16_S0: SchemaNode<'static> = dec_fixed(16, 0);
-pub(crate) static DEC_FIXED17_S0: SchemaNode<'static> = dec_fixed(17, 0);
-pub(crate) static DEC_FIXED2_S1: SchemaNode<'static> = dec_fixed(2, 1);
+pub(crate) const fn array_of(n: &'static SchemaNode<'static>) -> SchemaNode<'static> {
+	SchemaNode::Array(nref(n))
+}
+pub(crate) const fn map_of(n: &'static SchemaNode<'static>) -> SchemaNode<'static> {
+	SchemaNode::Map(nref(n))
+}
 
 // --- composite nodes ------------------------------------------------------------------------------
 // Enum / Record / Union nodes are NOT statics: a static with two or more pointer relocations is
@@ -86,4 +70,8 @@ pub(crate) static DEC_FIXED2_S1: SchemaNode<'static> = dec_fixed(2, 1);
 
 pub(crate) fn per_type_lookup_new(variants: &[NodeRef<'static>]) -> PerTypeLookup<'static> {
 	PerTypeLookup::new(variants)
+}
+
+pub(crate) fn per_type_lookup_placeholder() -> PerTypeLookup<'static> {
+	PerTypeLookup::placeholder()
 }
